@@ -815,8 +815,18 @@ pub fn replay_validate(case: &Value, rep: &mut Report, rng: &mut Rng) {
 
     // Generic networks: validate / predict_batch against the same aggregation composed from the
     // implementation's own predict and objective (float data, every objective family).
-    let archs = architectures();
-    let arch = &archs[(n + len) % archs.len()];
+    let mut archs = architectures();
+    // networks with a skip connection only, and with a loop connection only (predict must follow forward there too)
+    archs.push(json!({"name": "mlp-skip", "ints": false, "input": [4], "out": 3,
+        "layers": [{"kind": "dense", "out": 4, "act": "tanh", "bias": true}, {"kind": "dense", "out": 4, "act": "tanh", "bias": false},
+                   {"kind": "dense", "out": 3, "act": "linear", "bias": true}],
+        "connect": [[0, 1], [1, 2]], "accumulation": {"skip": "add", "loop": "mean"}, "objective": {"kind": "mse"}}));
+    archs.push(json!({"name": "cnn-loop", "ints": false, "input": [1, 4, 4], "out": 2,
+        "layers": [{"kind": "conv", "filters": 1, "kernel": [3, 3], "stride": [1, 1], "padding": [1, 1], "act": "tanh"},
+                   {"kind": "dense", "out": 2, "act": "linear", "bias": true}],
+        "loopback": [{"outof": 0, "into": 0, "iterations": 2, "inskips": true}], "accumulation": {"skip": "add", "loop": "mean"},
+        "objective": {"kind": "mae"}}));
+    let arch = &archs[(n + len + usize_of(ds, "seed")) % archs.len()];
     let mut g = nets::build(arch);
     init_params(&mut g, arch, rng);
     let data = arch_dataset(arch, n, rng);
@@ -833,6 +843,10 @@ pub fn replay_validate(case: &Value, rep: &mut Report, rng: &mut Rng) {
             }
             if batch.len() != n || (0..n.min(batch.len())).any(|i| nets::tensor_bits(&batch[i]) != nets::tensor_bits(&g.predict(gx[i]))) {
                 rep.mismatch("C12", "predict_batch_element_or_order", &id, json!({"arch": arch["name"]}), case);
+            }
+            // predict equals the final activation of forward
+            if (0..n.min(8)).any(|i| nets::tensor_bits(&g.predict(gx[i])) != nets::tensor_bits(g.forward(gx[i]).1.last().unwrap())) {
+                rep.mismatch("C12", "predict_is_not_last_activation_of_forward", &id, json!({"arch": arch["name"]}), case);
             }
         }
     }
